@@ -355,6 +355,15 @@ func doAdd(ctx context.Context, t *tree, p *api.AddParams, allocs []peer.ID, fai
 
 func run(c *fw.Ctx, idx int) {
 	r := c.Rand("main")
+	// the first cases are the end-to-end per-destination family (real multi-peer clusters)
+	ne2e := 8
+	if c.Thorough() {
+		ne2e = 64
+	}
+	if idx < ne2e {
+		e2eCase(c, r, idx)
+		return
+	}
 	ctx := context.Background()
 	p := api.DefaultAddParams()
 	chunk := []int{32, 100, 1024, 262144}[r.Intn(4)]
